@@ -106,8 +106,13 @@ func checkC01(c *Ctx) error {
 		files := gen.Split(r, conf, i%3)
 		id := fmt.Sprintf("c%05d", i)
 		ops := []probe.Op{{Op: "new"}, {Op: "circular"}}
-		units = append(units, &probe.Unit{ID: id, Cfg: conf, Files: files, Ops: ops})
-		units = append(units, &probe.Unit{ID: id, Cfg: conf, Files: files, Stub: true})
+		prev := ""
+		if i%6 == 2 {
+			// the -o path already holds a longer Go file (the output of an earlier, bigger configuration)
+			prev = "package previous\n\n" + strings.Repeat("// line of the previous, longer output\nvar _ = 1\n", 6000)
+		}
+		units = append(units, &probe.Unit{ID: id, Cfg: conf, Files: files, Ops: ops, Previous: prev})
+		units = append(units, &probe.Unit{ID: id, Cfg: conf, Files: files, Stub: true, Previous: prev})
 	}
 	if err := runUnits(c, lab, units, false); err != nil {
 		return err
